@@ -33,7 +33,8 @@ SCOPE = {
              "expressions as reaches of steps (1 or 6 steps per language) and 40 inheritance shapes "
              "(absent / '->' / '+>' / no-reaches per level)",
     "thorough": "same structures; + 2500 random expressions of height <=4 per structure; models: all on <=2 assets, "
-                "3000 random on 3 assets and 1500 on 4 assets per structure",
+                "3000 random on 3 assets and 1500 on 4 assets per structure; seeded fractions of the (model x "
+                "expression batch) product (S3 40%, S2 10%, S1/S4 100%, random models 4%, transitive batches x0.3)",
 }
 EXHAUSTIVE = {"quick": False, "thorough": False}
 RULE = ("case = (language recipe, model recipe, kind): kind 'eval' calls the real evaluator on each listed expression "
@@ -152,6 +153,8 @@ def graph_lang(sname, L, batch):
 QUICK_FRACTION = {"S3": 0.25, "S1": 1.0, "S2": 0.04, "S4": 1.0}
 SINGLES_FRACTION = {"S3": 1.0, "S1": 1.0, "S2": 0.15, "S4": 1.0}
 T_FRACTION = {"S3": 0.03, "S1": 0.15, "S2": 0.06, "S4": 0.3}      # further factor for the transitive batches
+THOROUGH_FRACTION = {"S3": 0.4, "S1": 1.0, "S2": 0.10, "S4": 1.0}
+T_FRACTION_THOROUGH = 0.3
 
 
 def _is_tiny(L, links):
@@ -190,7 +193,7 @@ def cases(tier, seed):
         #     expressions with a transitive operator are kept in batches / languages of their own, so that a
         #     non-terminating closure cannot hide what the other operators do
         allx = small + deep
-        p2 = QUICK_FRACTION[sname] if quick else 1.0
+        p2 = QUICK_FRACTION[sname] if quick else THOROUGH_FRACTION[sname]
         for has_t in (False, True):
             part = [(T, e) for (T, e) in allx if bool(G.trans_fields(L, e)) == has_t]
             ne, ng = (25, 8) if not has_t else (6, 2)
@@ -202,8 +205,8 @@ def cases(tier, seed):
             glangs = [graph_lang(sname, L, mixed[k:k + ng]) for k in range(0, len(mixed), ng)]
             for (types, links, mode) in m12 + big:
                 mrec = G.model_recipe(types, links)
-                p = p2 if mode != "rnd" else (0.12 if quick else 0.2)
-                if has_t and quick: p *= T_FRACTION[sname]
+                p = p2 if mode != "rnd" else (0.12 if quick else 0.04)
+                if has_t: p *= T_FRACTION[sname] if quick else T_FRACTION_THOROUGH
                 for (T, es) in ebatches:
                     if fits(T, types) and (p >= 1.0 or rnd.random() < p):
                         yield {"k": "eval", "lang": eval_lang, "src": T, "exprs": es, "model": mrec}
@@ -249,8 +252,8 @@ def run_case(recipe):
     r = CaseResult()
     seen = set()
     if real.build_error is not None:
-        r.check("C01.no-crash", False, real._stage, "building a valid model raised %r" % (real.build_error,),
-                "model-build:" + type(real.build_error).__name__)
+        r.check("C01.no-crash", False, real._stage, "building the language / a valid model raised %r" % (real.build_error,),
+                "build:%s:%s" % (real._stage.split(".")[-1], type(real.build_error).__name__))
         return r
     r.check("C01.no-crash", True, FN_EVAL)
     if recipe["k"] == "eval":
